@@ -35,7 +35,7 @@ for s in $FW_SRCS; do
   FW_OBJS="$FW_OBJS $o"
   newest=$(ls -t "$s" $V/sim/*.hpp $V/harness/*.hpp 2>/dev/null | head -1)
   if [ ! -f "$o" ] || [ "$newest" -nt "$o" ]; then
-    ( $CXX -std=c++17 $OPT $FWSAN $DEFS -Wall -Wno-unused-parameter -I"$V/sim" -I"$V/harness" \
+    ( $CXX -std=c++17 $OPT $FWSAN $DEFS -Wall -Wno-unused-parameter -Wno-unused-function -Wno-unused-variable -I"$V/sim" -I"$V/harness" \
         -c "$s" -o "$o.tmp.$$" && mv "$o.tmp.$$" "$o" ) &
     PIDS="$PIDS $!"
   fi
@@ -74,7 +74,7 @@ comm -23 "$R/reproc.undef" "$R/reproc.defs" > "$R/reproc.ext"
 while read -r sym; do
   if grep -qx "simk_$sym" "$R/simk.syms"; then echo "$sym simk_$sym" >> "$R/redefine.txt"; continue; fi
   case "$sym" in
-    __asan_*|__ubsan_*|__tsan_*|__sanitizer_*|__gcov_*|__llvm_*|_GLOBAL_OFFSET_TABLE_|__stack_chk_fail|__dso_handle) ;;
+    __asan_*|__ubsan_*|__tsan_*|__sanitizer_*|__gcov_*|__llvm_*|_GLOBAL_OFFSET_TABLE_|__stack_chk_fail|__dso_handle|__gcc_personality_v0) ;;
     _Z*|__cxa_*|__gxx_*|_Unwind_*|__cxx*|pthread_mutex_*|pthread_once|__pthread_key_create) ;;
     mem*|str*|__xpg_strerror_r|abs|labs|__errno_location|environ|stdin|stdout|stderr|__assert_fail|getenv|snprintf|__ctype_b_loc|qsort|bsearch) ;;
     *) echo "$sym" >> "$R/unmodelled.txt";;
